@@ -115,7 +115,9 @@ impl TransportVisitor for VBuf {
         // Completions in used-ring order: (token, payload).
         let mut completed: VecDeque<(u16, Vec<u8>)> = VecDeque::new();
         let mut seq = 0u32;
-        let lens = [0usize, 1, 1514, NET_BUF_LEN];
+        // 0, 1, a full Ethernet frame, a frame within one header length of the buffer's capacity,
+        // and one that fills the buffer exactly (clamped by `deliver`).
+        let lens = [0usize, 1, 1514, NET_BUF_LEN - 20, NET_BUF_LEN];
         for step in 0..self.depth {
             let posted = co.borrow_mut().held_count(0);
             let mut menu: Vec<(u8, usize, usize)> = vec![];
@@ -309,7 +311,7 @@ impl TransportVisitor for VRaw {
                 }
             })));
         }
-        let lens = [0usize, 1, 1514];
+        let lens = [0usize, 1, 1514, 2048 - 20, 4096];
         for step in 0..self.depth {
             co.borrow_mut().spins = 0;
             let posted = co.borrow_mut().held_count(0);
